@@ -63,6 +63,7 @@ G4 = {"name": "gauss_uniform", "dims": 4, "lo": -4.0, "hi": 4.0}
 GG = {"name": "gauss_gauss", "dims": 2}
 GGA = {"name": "gauss_gauss", "dims": 2, "analytic_new_point": True}
 PER = {"name": "periodic", "dims": 2}
+GAF = {"name": "gauss_affine", "dims": 2}
 
 CELLS = [
     ("std/default", G2, False, {}),
@@ -94,6 +95,18 @@ CELLS = [
                                 "threshold_kwargs": {"q": 0.8}}),
     ("ins/no-iid", G2, True, {"draw_iid_live": False}),
     ("ins/no-logit", GG, True, {"reparameterisation": None}),
+    # more initial prior samples than live points: the prior level's share of
+    # the meta-proposal is n_initial / N, not nlive / N
+    ("ins/n-initial", G2, True, {"n_initial": 900}),
+    ("ins/nsf", G2, True, {"flow_config": {"n_blocks": 2, "n_neurons": 16,
+                                           "ftype": "nsf"}}),
+    ("ins/maf", G2, True, {"flow_config": {"n_blocks": 2, "n_neurons": 16,
+                                           "ftype": "maf"}}),
+    # prior that is not uniform on the unit hypercube (logU != 0)
+    ("ins/nonuniform-unit-prior", GAF, True, {}),
+    ("std/uniform-nsphere", G2, False, {"latent_prior": "uniform_nsphere"}),
+    ("std/gaussian-latent", G2, False, {"latent_prior": "gaussian",
+                                        "constant_volume_mode": False}),
 ]
 
 
@@ -241,11 +254,11 @@ def run(ctx):
         # rotate through the matrix with the seed; always keep the cells
         # that guard repaired defects
         keep = {"std/default", "std/no-uninformed", "ins/default",
-                "std/augmented"}
+                "std/augmented", "ins/n-initial"}
         rest = [c for c in CELLS if c[0] not in keep]
-        k = ctx.seed % 3
+        k = ctx.seed % 5
         cells = [c for c in CELLS if c[0] in keep] + [
-            c for i, c in enumerate(rest) if i % 3 == k][:6]
+            c for i, c in enumerate(rest) if i % 5 == k]
         return run_cells(ctx, cells, 20, "c06")
     return run_cells(ctx, CELLS, 100, "c06")
 
